@@ -173,6 +173,59 @@ func goroutines() []gor {
 	return res
 }
 
+// parkedSenderCounts returns, per vouch function, the number of goroutines that
+// are blocked on a channel send directly inside that function.  It uses the
+// goroutine profile (program counters only), which is much cheaper than a
+// formatted stack dump once thousands of goroutines exist.
+var (
+	pcNames   = map[uintptr]string{}
+	profileBuf []runtime.StackRecord
+)
+
+func pcName(pc uintptr) string {
+	if n, ok := pcNames[pc]; ok {
+		return n
+	}
+	n := ""
+	if f := runtime.FuncForPC(pc - 1); f != nil {
+		n = f.Name()
+	}
+	pcNames[pc] = n
+	return n
+}
+
+func parkedSenderCounts() map[string]int {
+	for {
+		n, ok := runtime.GoroutineProfile(profileBuf)
+		if ok {
+			profileBuf = profileBuf[:n]
+			break
+		}
+		profileBuf = make([]runtime.StackRecord, n+n/4+64)
+	}
+	res := map[string]int{}
+	for i := range profileBuf {
+		st := profileBuf[i].Stack()
+		// innermost frames: runtime.gopark, runtime.chansend, runtime.chansend1, then the sender
+		sending := false
+		for _, pc := range st {
+			name := pcName(pc)
+			if strings.HasPrefix(name, "runtime.") {
+				if name == "runtime.chansend" || name == "runtime.chansend1" {
+					sending = true
+				}
+				continue
+			}
+			if sending && strings.HasPrefix(name, vouchPath) {
+				res[strings.TrimPrefix(name, vouchPath)]++
+			}
+			break
+		}
+	}
+	profileBuf = profileBuf[:cap(profileBuf)]
+	return res
+}
+
 // parkedSenders returns the goroutines blocked on a channel send inside vouch
 // code (ids -> function).
 func parkedSenders() map[int]string {
